@@ -143,6 +143,58 @@ Definition unambiguousb (refs : list dref) (ps : list piece) : bool :=
                                  negb (denotes r t && denotes r' t) || String.eqb (r_val r) (r_val r')) refs) refs
                     end) ps.
 
+(* ---- the code's own recogniser of reference tokens in an argument string
+   (FlowIR.discover_reference_strings: re "([.a-zA-Z0-9_/-]|<variable>)+:(copy|link|ref|copyout|...)",
+   finditer = left-most, greedy, first alternative of the method group), for strings without
+   %(variable)s references *)
+Definition is_namech (a : ascii) : bool :=
+  let n := nat_of_ascii a in
+  (Nat.leb 97 n && Nat.leb n 122) || (Nat.leb 65 n && Nat.leb n 90) || (Nat.leb 48 n && Nat.leb n 57) ||
+  Nat.eqb n 46 || Nat.eqb n 95 || Nat.eqb n 47 || Nat.eqb n 45.
+
+(* first alternative of the method group that matches at the head of s *)
+Definition first_method (s : string) : option string := List.find (fun m => prefixb m s) methods.
+
+Fixpoint tok_aux (lit run : string) (skip : nat) (s : string) : list piece :=
+  match s with
+  | EmptyString => [Lit (lit ++ run)]
+  | String c s' =>
+      match skip with
+      | S k => tok_aux lit run k s'
+      | O =>
+          if is_namech c then tok_aux lit (run ++ String c EmptyString) 0 s'
+          else if Ascii.eqb c ":"%char && nonempty run then
+            match first_method s' with
+            | Some m => Lit lit :: Tok (run ++ ":" ++ m) :: tok_aux "" "" (String.length m) s'
+            | None => tok_aux (lit ++ run ++ ":") "" 0 s'
+            end
+          else tok_aux (lit ++ run ++ String c EmptyString) "" 0 s'
+      end
+  end.
+
+Definition tokenise (s : string) : list piece := tok_aux "" "" 0 s.
+
+(* comparison with a tokenisation given as pieces: empty literals dropped, adjacent literals merged *)
+Fixpoint norm (ps : list piece) : list piece :=
+  match ps with
+  | [] => []
+  | Lit a :: rest =>
+      match norm rest with
+      | Lit b :: r => Lit (a ++ b) :: r
+      | r => match a with EmptyString => r | _ => Lit a :: r end
+      end
+  | Tok t :: rest => Tok t :: norm rest
+  end.
+Fixpoint pieces_eqb (a b : list piece) : bool :=
+  match a, b with
+  | [], [] => true
+  | Lit x :: a', Lit y :: b' => String.eqb x y && pieces_eqb a' b'
+  | Tok x :: a', Tok y :: b' => String.eqb x y && pieces_eqb a' b'
+  | _, _ => false
+  end.
+Definition same_tokenisation (ps : list piece) : bool := pieces_eqb (norm (tokenise (flatten ps))) (norm ps).
+
+
 (* ---- correspondence checker: case = ((refs, pieces), ((resolved, unused), unresolved?)) *)
 Fixpoint list_eqb (a b : list string) : bool :=
   match a, b with
@@ -156,6 +208,8 @@ Definition check_case (c : (list dref * list piece) * ((string * list string) * 
   let args := flatten ps in
   let res := run refs args in
   String.eqb (fst res) out && list_eqb (snd res) unused && Bool.eqb (unresolved (fst res)) unres &&
+  (* the pieces are the tokenisation the code's recogniser makes of the string *)
+  same_tokenisation ps &&
   (* where the hypotheses of C10_exact hold the implementation must agree with the specification *)
   (negb (separatedb refs ps) || String.eqb out (spec refs ps)).
 
